@@ -212,6 +212,8 @@ static void ep4_mul_reg_gls(ep4_t r, const ep4_t p, const bn_t k) {
 		ep4_norm(q[0], p);
 		for (size_t i = 1; i < 8; i++) {
 			ep4_psi(q[i], q[i - 1]);
+			/* The table below reads these points as affine. */
+			ep4_norm(q[i], q[i]);
 		}
 		for (size_t i = 0; i < 8; i++) {
 			ep4_neg(r, q[i]);
